@@ -29,6 +29,7 @@ type SimReader struct {
 	// observations
 	Reads, ZeroReads, ShortReads, EOFWithData, CutHits, ErrReturned, ErrWithData int64
 	Finished                                                                     bool // EOF or the error has been returned
+	LastN                                                                        int  // bytes handed out by the most recent Read
 }
 
 const (
@@ -139,6 +140,7 @@ func (r *SimReader) Read(p []byte) (int, error) {
 	}
 	copy(p, r.data[r.pos:r.pos+n])
 	r.pos += n
+	r.LastN = n
 	if i := sort.SearchInts(r.cuts, r.pos); i < len(r.cuts) && r.cuts[i] == r.pos {
 		r.CutHits++
 	}
